@@ -29,12 +29,17 @@ use fuel_core_types::{
     fuel_crypto::{Hasher, SecretKey},
     fuel_tx::{
         Address, AssetId, Bytes32, Chargeable, ConsensusParameters, Contract as TxContract, FeeParameters,
-        Finalizable, Input, Output, Receipt, Salt, Transaction, TransactionBuilder, TxId, TxPointer,
+        Cacheable, Finalizable, Input, Output, Signable, Receipt, Salt, Transaction, TransactionBuilder, TxId, TxPointer,
         UniqueIdentifier, UtxoId, ValidityError, Witness,
         field::{InputContract, MintAmount, MintAssetId, MintGasPrice, OutputContract, Outputs, TxPointer as TxPointerField},
     },
     fuel_types::{BlockHeight, ChainId, ContractId, MessageId, Nonce, canonical::Serialize},
-    fuel_vm::{Call, CallFrame, checked_transaction::CheckError},
+    fuel_vm::{
+        Call, CallFrame,
+        checked_transaction::{CheckError, CheckPredicateParams, EstimatePredicates},
+        interpreter::MemoryInstance,
+        predicate::EmptyStorage,
+    },
     services::{
         block_producer::Components,
         executor::{
@@ -163,7 +168,14 @@ pub struct World {
 fn secret(owner: &str) -> SecretKey {
     SecretKey::try_from(h32("owner", owner)).unwrap_or_else(|_| die("bad secret"))
 }
+/// The trivially true predicate; coins / messages of owner "oP" are owned by its root.
+fn pred_code() -> Vec<u8> {
+    vec![op::ret(RegId::ONE)].into_iter().collect()
+}
 fn address(owner: &str) -> Address {
+    if owner == "oP" {
+        return Input::predicate_owner(pred_code());
+    }
     if owner == "oT" {
         // the address the generic contract transfers to: first word 7, rest zero
         let mut b = [0u8; 32];
@@ -272,7 +284,7 @@ impl World {
             recent: vec![],
             pending: vec![],
         };
-        for o in ["o1", "o2", "o3", "o4", "oT"] {
+        for o in ["o1", "o2", "o3", "o4", "oT", "oP"] {
             w.owner_names.insert(address(o), o.to_string());
         }
         for c in ["c1", "c2", "c3", "c4", "cX"] {
@@ -489,7 +501,7 @@ impl World {
                     }
                 }
             });
-            return b.finalize().into();
+            return self.finish(b.finalize(), &ins);
         }
         let (script, data) = self.script(d);
         let mut b = TransactionBuilder::script(script, data);
@@ -510,7 +522,26 @@ impl World {
                 b.add_output(self.output(&o));
             }
         });
-        b.finalize().into()
+        self.finish(b.finalize(), &ins)
+    }
+
+    /// Predicate inputs: estimate `predicate_gas_used` as the executor's own tests do; that changes the
+    /// transaction id, so the signed inputs are signed again.
+    fn finish<T>(&self, mut tx: T, ins: &[Value]) -> Transaction
+    where
+        T: EstimatePredicates + Signable + Cacheable + Into<Transaction>,
+    {
+        if ins.iter().any(|i| s(i, "o") == "oP" && s(i, "k") != "contract") {
+            let _ = tx.estimate_predicates(&CheckPredicateParams::from(&self.params), MemoryInstance::new(), &EmptyStorage);
+            let _ = tx.precompute(&self.chain_id);
+            for i in ins {
+                if s(i, "k") != "contract" && s(i, "o") != "oP" {
+                    tx.sign_inputs(&secret(&s(i, "o")), &self.chain_id);
+                }
+            }
+            let _ = tx.precompute(&self.chain_id);
+        }
+        tx.into()
     }
 
     fn add_input<T>(&self, b: &mut TransactionBuilder<T>, i: &Value)
@@ -518,6 +549,18 @@ impl World {
         T: fuel_core_types::fuel_tx::Buildable,
     {
         match s(i, "k").as_str() {
+            "coin" if s(i, "o") == "oP" => {
+                let utxo = self.utxo_of(&s(i, "id"), u(i, "i") as u16);
+                b.add_input(Input::coin_predicate(utxo, address("oP"), u(i, "am"), asset(&s(i, "as")), TxPointer::default(), 0, pred_code(), vec![]));
+            }
+            "msg" if s(i, "o") == "oP" => {
+                let data = i["data"].as_bool().unwrap_or(false);
+                b.add_input(if data {
+                    Input::message_data_predicate(msg_sender(), address("oP"), u(i, "am"), nonce(&s(i, "id")), 0, msg_data(true), pred_code(), vec![])
+                } else {
+                    Input::message_coin_predicate(msg_sender(), address("oP"), u(i, "am"), nonce(&s(i, "id")), 0, pred_code(), vec![])
+                });
+            }
             "coin" => {
                 let utxo = self.utxo_of(&s(i, "id"), u(i, "i") as u16);
                 b.add_unsigned_coin_input(secret(&s(i, "o")), utxo, u(i, "am"), asset(&s(i, "as")), TxPointer::default());
@@ -1041,6 +1084,46 @@ impl World {
         let (idx, amt, gp) = (mint.tx_pointer().tx_index(), *mint.mint_amount(), *mint.gas_price());
         match kind {
             "mintAmount" => txs[n - 1] = remint(idx, amt + 1, gp, None),
+            "mintInflate" => {
+                // more than the collected fees, with the contract input / output balance roots a producer
+                // would have computed for that amount (the mint is self-consistent)
+                let cid = mint.input_contract().contract_id;
+                if cid == ContractId::zeroed() {
+                    return None;
+                }
+                let inflated = amt + 1_000;
+                let snap = self.db.snapshot();
+                let old: Option<u64> = snap
+                    .iter_all::<ContractsAssets>(None)
+                    .filter_map(|r| r.ok())
+                    .find(|(k, _)| *k.contract_id() == cid && *k.asset_id() == AssetId::BASE)
+                    .map(|(_, v)| v);
+                let root = |v: Option<u64>| {
+                    let mut h = Hasher::default();
+                    h.input(AssetId::BASE);
+                    match v {
+                        Some(x) => {
+                            h.input([1u8]);
+                            h.input(x.to_be_bytes());
+                        }
+                        None => h.input([0u8]),
+                    }
+                    h.digest()
+                };
+                let mut input = mint.input_contract().clone();
+                input.balance_root = root(old);
+                let mut output = *mint.output_contract();
+                output.balance_root = root(Some(old.unwrap_or(0) + inflated));
+                txs[n - 1] = Transaction::mint(
+                    TxPointer::new(mint.tx_pointer().block_height(), idx),
+                    input,
+                    output,
+                    inflated,
+                    *mint.mint_asset_id(),
+                    gp,
+                )
+                .into();
+            }
             "mintGasPrice" => txs[n - 1] = remint(idx, amt, gp + 1, None),
             "mintIndex" => txs[n - 1] = remint(idx + 1, amt, gp, None),
             "noMint" => {
@@ -1139,7 +1222,7 @@ impl World {
                 batches.push(b);
             }
         }
-        let all = ["mintAmount", "mintGasPrice", "mintIndex", "noMint", "mintNotLast", "mintRecipient", "dupTx", "dupInBlock", "dropTx"];
+        let all = ["mintInflate", "mintInflate", "mintAmount", "mintGasPrice", "mintIndex", "noMint", "mintNotLast", "mintRecipient", "dupTx", "dupInBlock", "dropTx"];
         let mut tampers = vec![];
         for _ in 0..rng.below(3) {
             tampers.push(rng.pick(&all).to_string());
@@ -1408,7 +1491,7 @@ pub fn gen_desc(rng: &mut Rng, id: &str, coins: &[Value], msgs: &[Value], contra
             }
         }
     }
-    let change_to = rng.pick(&owners).to_string();
+    let change_to = if rng.chance(1, 4) { "oP".to_string() } else { rng.pick(&owners).to_string() };
     let c_live: Vec<&String> = contracts.iter().filter(|c| c.starts_with('c')).collect();
     match flavor {
         0..=3 => {
@@ -1519,12 +1602,12 @@ pub fn random_cfg(rng: &mut Rng, small_size: bool) -> Value {
     let owners = ["o1", "o2", "o3"];
     let mut coins = vec![];
     for i in 1..=(5 + rng.below(3)) {
-        coins.push(json!({"id": {"t": format!("g{i}"), "i": 0}, "o": *rng.pick(&owners), "am": 400_000 + rng.below(10) * 50_000, "as": "A0"}));
+        coins.push(json!({"id": {"t": format!("g{i}"), "i": 0}, "o": if rng.chance(1, 3) { "oP" } else { *rng.pick(&owners) }, "am": 400_000 + rng.below(10) * 50_000, "as": "A0"}));
     }
     let da0 = rng.below(2);
     let mut msgs = vec![];
     for i in 1..=(2 + rng.below(2)) {
-        msgs.push(json!({"id": format!("m{i}"), "o": *rng.pick(&owners), "am": 100_000 + rng.below(5) * 10_000,
+        msgs.push(json!({"id": format!("m{i}"), "o": if rng.chance(1, 2) { "oP" } else { *rng.pick(&owners) }, "am": 100_000 + rng.below(5) * 10_000,
                          "da": if rng.chance(1, 3) { da0 + 1 + rng.below(2) } else { da0 }, "data": rng.chance(1, 2)}));
     }
     let contracts = vec!["c1"];
@@ -1546,7 +1629,7 @@ pub fn random_cfg(rng: &mut Rng, small_size: bool) -> Value {
             k += 1;
             match rng.below(5) {
                 0 | 1 => {
-                    let m = json!({"k": "msg", "id": format!("r{k}"), "o": *rng.pick(&owners), "am": 50_000 + rng.below(5) * 10_000,
+                    let m = json!({"k": "msg", "id": format!("r{k}"), "o": if rng.chance(1, 2) { "oP" } else { *rng.pick(&owners) }, "am": 50_000 + rng.below(5) * 10_000,
                                    "data": rng.chance(1, 3), "valid": true, "why": ""});
                     evs.push(m);
                 }
